@@ -153,7 +153,7 @@ def run_config(cfg, res):
                    files={'relay-rules.conf': '[default]\ndefault = true\ndestinations = 10.0.0.1:2004:a\n'})
     from carbon.routers import DatapointRouter
     path = ns.settings['relay-rules']
-    for case in range(80 if cfg['tier'] == 'quick' else 300):
+    for case in range(300 if cfg['tier'] == 'quick' else 4000):
       text = gen_relay_file(r)
       with open(path, 'w') as f:
         f.write(text)
@@ -192,7 +192,7 @@ def run_config(cfg, res):
   path = ns.settings['aggregation-rules']
   fast = 'fast' in cfg['router']
   mt = 2000
-  for case in range(25 if cfg['tier'] == 'quick' else 80):
+  for case in range(100 if cfg['tier'] == 'quick' else 1200):
     text = gen_agg_rules(r)
     with open(path, 'w') as f:
       f.write(text)
